@@ -170,6 +170,16 @@ CHECKS = {
         note="Trusted: TLC, harness/internal/trace, lib/corpus.py. Interleaving-dependent crashes are retried up to 8 times before being reported; the race-enabled runs live in C11.",
         technique="TLA+ liveness (Termination) checked by TLC; replay of crash-prone program shapes; trace validation (CorpusTrace.tla) of runs over annotated real-world corpora",
         design="5/C10"),
+    "C05": dict(
+        text="TLC checks that the four phases ResolveQualifier / LookupInterface / BuildMethodSet / Compare yield Go's own verdict (IMPL01 / "
+             "IMPL02 / IMPL03 mutually exclusive in that order, the missing set computed with Go's method-set rule and type identity given by a "
+             "canonical-form table: byte = uint8, any = interface{}, alias = target) for every pair of 24 x 23 parameter and result types, "
+             "variadic vs slice, the method-set matrix and the qualifier x interface-kind matrix. Every scenario is concretised; the model's verdict "
+             "is first cross-checked against go/types (types.NewMethodSet, types.Identical) - any disagreement is a model error - and then compared "
+             "with the analyzer's code and listed missing methods; a sample through the real binary and go vet.",
+        note="Trusted: TLC, lib/gen_impl.py, go/types as the oracle the property names. Blank imports and alias-hides-declared-name are not generated.",
+        technique="TLA+ model (Implements.tla) checked by TLC; replay of every scenario into the real analyzer with go/types as second oracle",
+        design="5/C05"),
 }
 
 NOT_YET = "check not built yet in this session; the property is in scope of the TLA+ specification (see DESIGN.md section 5) and will be claimed when its replay binding is in place"
